@@ -10,6 +10,7 @@ def parseSteps (s : String) : List TStep :=
     if t == "S" then some .susp
     else if t.startsWith "D" then rest.toNat?.map .delay
     else if t == "P" then some .panic
+    else if t == "C" then some .cancelSelf
     else if t.startsWith "R" then rest.toNat?.map .ret
     else none)
 
@@ -33,6 +34,9 @@ structure D where
   accepted : List Nat := []
   startedImpl : List Nat := []
   parkedCancel : Bool := false          -- a cancel hit a task parked inside a worker (known finding territory)
+  cancelTargets : List Nat := []        -- tasks some `cancel` op named
+  noWait : List Nat := []               -- tasks whose result was declared unwanted
+  settled : Bool := false               -- the wind-down marker has passed
 
 def kvOf (io k : String) : String :=
   (((words io).find? (fun w => w.startsWith (k ++ "="))).map (fun w => (w.drop (k.length + 1)).toString)).getD ""
@@ -58,6 +62,13 @@ def stepOp (d : D) (o io : String) : D :=
       else (d.p, "-", "cancel.none")
     | ["stop"] => let r := stop d.p; (r.1, if r.2 then "ok" else "err", if r.2 then "stop.ok" else "stop.err")
     | ["max", n] => ({ d.p with maxSize := n.toNat?.getD 1 }, "-", "max")
+    | ["co"] => let r := submitCo d.p; (r.1, if r.2 then "ok" else "rejected", if r.2 then "co.ok" else "co.rejected")
+    | ["nowait", k] =>
+      let k := k.toNat?.getD 0
+      if k < d.p.progs.length ∧ (d.p.progs.getD k []) ≠ [] then
+        (cleanResult d.p k, "-", if d.p.results.any (·.1 == k) then "nowait.takes-result" else if d.p.cancelTasks.contains k then "nowait.after-cancel" else "nowait.marks")
+      else (d.p, "-", "nowait.none")
+    | ["settle"] => (d.p, "-", "settle")
     | ["wait", k] =>
       let k := k.toNat?.getD 0
       if k < d.p.progs.length ∧ (d.p.progs.getD k []) ≠ [] then
@@ -94,7 +105,11 @@ def stepOp (d : D) (o io : String) : D :=
        -- a task cancelled while queued whose turn has passed must have a settled waiter
        (if d.cancelledQueued.contains k ∧ !(d.p.tasks.vals.contains k) ∧ (words io).head? == some "timeout" ∧ mo ≠ "timeout" then
          [("C13", s!"[waiter-unsettled] waiter of the cancelled task {k} is still blocked")] else []) ++
-       (if d.p.droppedTasks.contains k ∧ (words io).head? == some "timeout" then
+       -- after the wind-down, a task nobody cancelled (and that does not cancel itself) has a result
+       (if d.settled ∧ d.accepted.contains k ∧ !(d.cancelTargets.contains k) ∧ !(d.noWait.contains k) ∧ !parked ∧
+           !((d.p.progs.getD k []).contains .cancelSelf) ∧ (words io).head? == some "timeout" ∧ mo ≠ "timeout" then
+         [("C13", s!"[uncancelled-task-lost] task {k} was never cancelled and everything had time to finish, but it has no result (its waiter timed out)")] else []) ++
+       (if d.p.droppedTasks.contains k ∧ !((d.p.progs.getD k []).contains .cancelSelf) ∧ (words io).head? == some "timeout" then
          [("C13", s!"[waiter-unsettled-after-parked-cancel] task {k} was cancelled while suspended inside its worker; its waiter is never settled")] else [])
      | _ => [])
   let cq := match words o with
@@ -103,7 +118,10 @@ def stepOp (d : D) (o io : String) : D :=
   let acc := if lab == "sub.ok" then d.accepted ++ [d.p.progs.length] else d.accepted
   { d with p := p', outs := d.outs ++ [fin p' mo], fails := d.fails ++ f11 ++ f12 ++ f13, labels := lab :: d.labels,
            lastSt := if ist == "" then d.lastSt else ist, maxSeen := maxSeen, cancelledQueued := cq, accepted := acc,
-           startedImpl := d.startedImpl ++ istarted, parkedCancel := parked }
+           startedImpl := d.startedImpl ++ istarted, parkedCancel := parked,
+           cancelTargets := (match words o with | ["cancel", k] => (k.toNat?.getD 0) :: d.cancelTargets | _ => d.cancelTargets),
+           noWait := (match words o with | ["nowait", k] => (k.toNat?.getD 0) :: d.noWait | _ => d.noWait),
+           settled := d.settled || o == "settle" }
 
 def drive (body impl : String) : Verdict :=
   match splitTrim body ";" with
